@@ -1,4 +1,5 @@
 import Wasp.Model.MsgLog
+import Wasp.Proofs.MsgLog
 /-!
 # C15 — message-log consumption survives crashes without skipping messages
 (and the log-side facts C02 relies on)
@@ -29,33 +30,331 @@ structure Inv (s : State) : Prop where
   runCur : ∀ r, s.run = some r → r.cur = s.st ∧ (∀ o, r.pending = some o → o = s.st ∧ o < s.log.next)
 
 theorem C15_inv_init : Inv {} := by
-  sorry
+  constructor <;> simp
 
 theorem C15_inv_step (s : State) (h : Inv s) (x : Step) : Inv (step s x).1 := by
-  sorry
+  obtain ⟨h1, h2, h3, h4⟩ := h
+  have hb := maybeTruncate_base s.log s.st
+  have hg := maybeTruncate_base_ge s.log s.st
+  have hn := maybeTruncate_next s.log s.st
+  cases x with
+  | append =>
+    refine ⟨h1, Nat.le_succ_of_le h2, h3, fun r hr => ⟨(h4 r hr).1, fun o ho => ?_⟩⟩
+    have := (h4 r hr).2 o ho
+    exact ⟨this.1, Nat.lt_succ_of_lt this.2⟩
+  | start =>
+    simp only [step]
+    split
+    · exact ⟨h1, h2, h3, h4⟩
+    · refine ⟨?_, ?_, ?_, ?_⟩
+      · show (maybeTruncate s.log s.st).base ≤ s.st
+        omega
+      · show s.st ≤ (maybeTruncate s.log s.st).next
+        omega
+      · show (maybeTruncate s.log s.st).base = 0 ∨ (maybeTruncate s.log s.st).base + truncKeep ≤ s.st
+        omega
+      · intro r hr
+        simp only [Option.some.injEq] at hr
+        subst hr
+        simp
+  | deliver =>
+    simp only [step]
+    split
+    · rename_i r hr
+      split
+      · rename_i hc
+        refine ⟨h1, h2, h3, ?_⟩
+        intro r' hr'
+        simp only [Option.some.injEq] at hr'
+        subst hr'
+        have := (h4 r hr).1
+        simp only [Bool.not_eq_eq_eq_not, Bool.not_true] at hc
+        refine ⟨this, ?_⟩
+        intro o ho
+        simp only [Option.some.injEq] at ho
+        show o = s.st ∧ o < s.log.next
+        omega
+      · exact ⟨h1, h2, h3, h4⟩
+    · exact ⟨h1, h2, h3, h4⟩
+  | commit =>
+    simp only [step]
+    split
+    · rename_i r hr
+      split
+      · rename_i o ho
+        have := (h4 r hr).2 o ho
+        refine ⟨?_, ?_, ?_, ?_⟩
+        · show s.log.base ≤ o + 1
+          omega
+        · show o + 1 ≤ s.log.next
+          omega
+        · show s.log.base = 0 ∨ s.log.base + truncKeep ≤ o + 1
+          omega
+        · intro r' hr'
+          simp only [Option.some.injEq] at hr'
+          subst hr'
+          simp
+      · exact ⟨h1, h2, h3, h4⟩
+    · exact ⟨h1, h2, h3, h4⟩
+  | truncate =>
+    simp only [step]
+    split
+    · rename_i r hr
+      split
+      · refine ⟨?_, ?_, ?_, ?_⟩
+        · show (maybeTruncate s.log s.st).base ≤ s.st
+          omega
+        · show s.st ≤ (maybeTruncate s.log s.st).next
+          omega
+        · show (maybeTruncate s.log s.st).base = 0 ∨ (maybeTruncate s.log s.st).base + truncKeep ≤ s.st
+          omega
+        · intro r' hr'
+          simp only [Option.some.injEq] at hr'
+          subst hr'
+          refine ⟨(h4 r hr).1, fun o ho => ?_⟩
+          have := (h4 r hr).2 o ho
+          show o = s.st ∧ o < (maybeTruncate s.log s.st).next
+          omega
+      · exact ⟨h1, h2, h3, h4⟩
+    · exact ⟨h1, h2, h3, h4⟩
+  | crash =>
+    exact ⟨h1, h2, h3, fun r hr => by cases hr⟩
+  | stop =>
+    simp only [step]
+    split
+    · split
+      · exact ⟨h1, h2, h3, fun r hr => by simp at hr⟩
+      · exact ⟨h1, h2, h3, h4⟩
+    · exact ⟨h1, h2, h3, h4⟩
 
-theorem C15_inv (steps : List Step) : Inv (exec {} steps).1 := by
-  sorry
 
-/-- a hand-over is always of the offset the state file names -/
-theorem C15_deliver_is_st (s : State) (h : Inv s) (o : Nat) (hd : (step s .deliver).2 = some o) :
-    o = s.st ∧ (step s .deliver).1.st = s.st := by
-  sorry
+def StepCases (s : State) (x : Step) (p : State × Obs) : Prop :=
+    (p.2 = none ∧ p.1.st = s.st ∧
+      (∀ r' o, p.1.run = some r' → r'.pending = some o → ∃ r, s.run = some r ∧ r.pending = some o) ∧
+      (x = .crash ∨ ∀ r o, s.run = some r → r.pending = some o →
+        ∃ r', p.1.run = some r' ∧ r'.pending = some o))
+    ∨ (x = .deliver ∧ p.2 = some s.st ∧ p.1.st = s.st ∧
+        ∃ r', p.1.run = some r' ∧ r'.pending = some s.st)
+    ∨ (x = .commit ∧ p.2 = none ∧ p.1.st = s.st + 1 ∧
+        (∃ r, s.run = some r ∧ r.pending = some s.st) ∧
+        ∃ r', p.1.run = some r' ∧ r'.pending = none)
 
-/-- only `commit` moves the state file, and by exactly one, past the offset just handed over -/
-theorem C15_st_moves (s : State) (h : Inv s) (x : Step) :
-    (step s x).1.st = s.st ∨ (x = .commit ∧ (step s x).1.st = s.st + 1 ∧ ∃ r, s.run = some r ∧ r.pending = some s.st) := by
-  sorry
+theorem stepCases_id (s : State) (x : Step) : StepCases s x (s, none) :=
+  Or.inl ⟨rfl, rfl, fun r' _ h1 h2 => ⟨r', h1, h2⟩, Or.inr fun r _ h1 h2 => ⟨r, h1, h2⟩⟩
+
+theorem step_cases (s : State) (h : Inv s) (x : Step) : StepCases s x (step s x) := by
+  obtain ⟨h1, h2, h3, h4⟩ := h
+  cases x with
+  | append =>
+    exact Or.inl ⟨rfl, rfl, fun r' o h1 h2 => ⟨r', h1, h2⟩, Or.inr fun r o h1 h2 => ⟨r, h1, h2⟩⟩
+  | start =>
+    cases hr : s.run with
+    | some r => rw [step_start_some hr]; exact stepCases_id _ _
+    | none =>
+      rw [step_start_none hr]
+      refine Or.inl ⟨rfl, rfl, ?_, Or.inr ?_⟩
+      · intro r' o h1 h2
+        simp only [Option.some.injEq] at h1
+        subst h1
+        cases h2
+      · intro r o h
+        rw [hr] at h
+        cases h
+  | deliver =>
+    cases hr : s.run with
+    | none => rw [step_norun hr _ (by simp)]; exact stepCases_id _ _
+    | some r =>
+      by_cases hc : r.pending = none ∧ r.needTrunc = false ∧ r.cur < s.log.next ∧ s.log.base ≤ r.cur
+      · have hcur := (h4 r hr).1
+        rw [step_deliver_en hr hc.1 hc.2.1 hc.2.2.1 hc.2.2.2]
+        exact Or.inr (Or.inl ⟨rfl, by rw [hcur], rfl, _, rfl, by rw [hcur]⟩)
+      · rw [step_deliver_dis hr hc]; exact stepCases_id _ _
+  | commit =>
+    cases hr : s.run with
+    | none => rw [step_norun hr _ (by simp)]; exact stepCases_id _ _
+    | some r =>
+      cases hp : r.pending with
+      | none => rw [step_commit_dis hr hp]; exact stepCases_id _ _
+      | some o =>
+        have ho := ((h4 r hr).2 o hp).1
+        subst ho
+        rw [step_commit_en hr hp]
+        exact Or.inr (Or.inr ⟨rfl, rfl, rfl, ⟨r, hr, hp⟩, _, rfl, rfl⟩)
+  | truncate =>
+    cases hr : s.run with
+    | none => rw [step_norun hr _ (by simp)]; exact stepCases_id _ _
+    | some r =>
+      cases hc : r.needTrunc with
+      | true =>
+        rw [step_truncate_en hr hc]
+        refine Or.inl ⟨rfl, rfl, ?_, Or.inr ?_⟩
+        · intro r' o h1 h2
+          simp only [Option.some.injEq] at h1
+          subst h1
+          exact ⟨r, hr, h2⟩
+        · intro r' o h1 h2
+          rw [hr] at h1
+          simp only [Option.some.injEq] at h1
+          subst h1
+          exact ⟨_, rfl, h2⟩
+      | false => rw [step_truncate_dis hr hc]; exact stepCases_id _ _
+  | crash =>
+    exact Or.inl ⟨rfl, rfl, fun r' o h => (by cases h), Or.inl rfl⟩
+  | stop =>
+    cases hr : s.run with
+    | none => rw [step_norun hr _ (by simp)]; exact stepCases_id _ _
+    | some r =>
+      cases hp : r.pending with
+      | none =>
+        rw [step_stop_en hr hp]
+        refine Or.inl ⟨rfl, rfl, fun r' o h => (by cases h), Or.inr ?_⟩
+        intro r' o h1 h2
+        rw [hr] at h1
+        simp only [Option.some.injEq] at h1
+        subst h1
+        rw [h2] at hp
+        cases hp
+      | some o => rw [step_stop_dis hr hp]; exact stepCases_id _ _
+
+
+theorem C15_inv_from (s : State) (h : Inv s) (steps : List Step) : Inv (exec s steps).1 := by
+  induction steps generalizing s with
+  | nil => exact h
+  | cons x xs ih => rw [exec_cons]; exact ih _ (C15_inv_step s h x)
+
+/-- ghost invariant for `C15_no_skip` -/
+def Seen (s : State) (obs : List Obs) : Prop :=
+  (∀ o, o < s.st → some o ∈ obs) ∧ (∀ r o, s.run = some r → r.pending = some o → some o ∈ obs)
+
+theorem seen_step (s : State) (h : Inv s) (obs : List Obs) (g : Seen s obs) (x : Step) :
+    Seen (step s x).1 (obs ++ [(step s x).2]) := by
+  obtain ⟨g1, g2⟩ := g
+  rcases step_cases s h x with ⟨_, hst, hp, _⟩ | ⟨_, ho, hst, r', hr', hp'⟩ | ⟨_, _, hst, ⟨r, hr, hp⟩, r', hr', hp'⟩
+  · refine ⟨fun o ho => ?_, fun r' o hr' hp' => ?_⟩
+    · rw [hst] at ho
+      exact List.mem_append_left _ (g1 o ho)
+    · obtain ⟨r, hr, hp2⟩ := hp r' o hr' hp'
+      exact List.mem_append_left _ (g2 r o hr hp2)
+  · refine ⟨fun o ho => ?_, fun r o hr hp => ?_⟩
+    · rw [hst] at ho
+      exact List.mem_append_left _ (g1 o ho)
+    · rw [hr'] at hr
+      simp only [Option.some.injEq] at hr
+      subst hr
+      rw [hp'] at hp
+      simp only [Option.some.injEq] at hp
+      subst hp
+      rw [ho]
+      simp
+  · refine ⟨fun o ho => ?_, fun r2 o hr2 hp2 => ?_⟩
+    · rw [hst] at ho
+      by_cases hlt : o < s.st
+      · exact List.mem_append_left _ (g1 o hlt)
+      · have : o = s.st := by omega
+        subst this
+        exact List.mem_append_left _ (g2 r _ hr hp)
+    · rw [hr'] at hr2
+      simp only [Option.some.injEq] at hr2
+      subst hr2
+      rw [hp'] at hp2
+      cases hp2
+
+theorem seen_exec (s : State) (h : Inv s) (obs : List Obs) (g : Seen s obs) (steps : List Step) :
+    Seen (exec s steps).1 (obs ++ (exec s steps).2) := by
+  induction steps generalizing s obs with
+  | nil => simpa [exec_nil] using g
+  | cons x xs ih =>
+    rw [exec_cons]
+    have := ih _ (C15_inv_step s h x) _ (seen_step s h obs g x)
+    simpa [List.append_assoc] using this
+
+/-- ghost invariant for `C15_delivered_le_st` -/
+def Below (s : State) (obs : List Obs) : Prop := ∀ o, some o ∈ obs → o ≤ s.st
+
+theorem below_step (s : State) (h : Inv s) (obs : List Obs) (g : Below s obs) (x : Step) :
+    Below (step s x).1 (obs ++ [(step s x).2]) := by
+  intro o ho
+  rw [List.mem_append, List.mem_singleton] at ho
+  rcases step_cases s h x with ⟨hn, hst, _, _⟩ | ⟨_, hob, hst, _⟩ | ⟨_, hn, hst, _, _⟩
+  · rw [hst]
+    rcases ho with ho | ho
+    · exact g o ho
+    · rw [hn] at ho; cases ho
+  · rw [hst]
+    rcases ho with ho | ho
+    · exact g o ho
+    · rw [hob] at ho
+      simp only [Option.some.injEq] at ho
+      omega
+  · rw [hst]
+    rcases ho with ho | ho
+    · exact Nat.le_succ_of_le (g o ho)
+    · rw [hn] at ho; cases ho
+
+theorem below_exec (s : State) (h : Inv s) (obs : List Obs) (g : Below s obs) (steps : List Step) :
+    Below (exec s steps).1 (obs ++ (exec s steps).2) := by
+  induction steps generalizing s obs with
+  | nil => simpa [exec_nil] using g
+  | cons x xs ih =>
+    rw [exec_cons]
+    have := ih _ (C15_inv_step s h x) _ (below_step s h obs g x)
+    simpa [List.append_assoc] using this
+
+/-- ghost invariant for `C15_replay_only_in_flight`; `c` = "a crash has occurred so far" -/
+def InFlight (s : State) (obs : List Obs) (c : Prop) : Prop :=
+  some s.st ∈ obs → (∃ r, s.run = some r ∧ r.pending = some s.st) ∨ c
+
+theorem inflight_step (s : State) (h : Inv s) (obs : List Obs) (c : Prop) (gb : Below s obs)
+    (g : InFlight s obs c) (x : Step) :
+    InFlight (step s x).1 (obs ++ [(step s x).2]) (c ∨ x = .crash) := by
+  intro ho
+  rw [List.mem_append, List.mem_singleton] at ho
+  rcases step_cases s h x with ⟨hn, hst, _, hk⟩ | ⟨_, hob, hst, r', hr', hp'⟩ | ⟨_, hn, hst, _, _⟩
+  · rw [hst] at ho ⊢
+    rcases ho with ho | ho
+    · rcases g ho with ⟨r, hr, hp⟩ | hc
+      · rcases hk with hk | hk
+        · exact Or.inr (Or.inr hk)
+        · exact Or.inl (hk r _ hr hp)
+      · exact Or.inr (Or.inl hc)
+    · rw [hn] at ho; cases ho
+  · rw [hst]
+    exact Or.inl ⟨r', hr', hp'⟩
+  · rw [hst] at ho
+    rcases ho with ho | ho
+    · have := gb _ ho
+      omega
+    · rw [hn] at ho; cases ho
+
+theorem inflight_exec (s : State) (h : Inv s) (obs : List Obs) (c : Prop) (gb : Below s obs)
+    (g : InFlight s obs c) (steps : List Step) :
+    InFlight (exec s steps).1 (obs ++ (exec s steps).2) (c ∨ Step.crash ∈ steps) := by
+  induction steps generalizing s obs c with
+  | nil => simpa [exec_nil, InFlight] using g
+  | cons x xs ih =>
+    rw [exec_cons]
+    have := ih _ (C15_inv_step s h x) _ _ (below_step s h obs gb x) (inflight_step s h obs c gb g x)
+    intro ho
+    have := this (by simpa [List.append_assoc] using ho)
+    rcases this with h1 | (h1 | h1) | h1
+    · exact Or.inl h1
+    · exact Or.inr (Or.inl h1)
+    · subst h1; exact Or.inr (Or.inr (by simp))
+    · exact Or.inr (Or.inr (List.mem_cons_of_mem _ h1))
+
+theorem C15_inv (steps : List Step) : Inv (exec {} steps).1 := C15_inv_from _ C15_inv_init _
 
 /-- every offset below the state file has been handed over -/
 theorem C15_no_skip (steps : List Step) (o : Nat) (h : o < (exec {} steps).1.st) :
     some o ∈ (exec {} steps).2 := by
-  sorry
+  have := seen_exec {} C15_inv_init [] ⟨fun o ho => (by cases ho), fun r o hr => (by cases hr)⟩ steps
+  simpa using this.1 o h
 
 /-- nothing beyond the state file has been handed over -/
 theorem C15_delivered_le_st (steps : List Step) (o : Nat) (h : some o ∈ (exec {} steps).2) :
     o ≤ (exec {} steps).1.st := by
-  sorry
+  have := below_exec {} C15_inv_init [] (fun o ho => by cases ho) steps
+  exact this o (by simpa using h)
 
 /-- and the offset AT the state file has been handed over only if it is in flight now or was in
     flight at a crash: if no run is in progress with it pending, and it was delivered, then some
@@ -64,28 +363,132 @@ theorem C15_replay_only_in_flight (steps : List Step)
     (h : some (exec {} steps).1.st ∈ (exec {} steps).2)
     (hr : ∀ r, (exec {} steps).1.run = some r → r.pending = none) :
     Step.crash ∈ steps := by
-  sorry
+  have := inflight_exec {} C15_inv_init [] False (fun o ho => by cases ho) (fun ho => by cases ho) steps
+  rcases this (by simpa using h) with ⟨r, h1, h2⟩ | h1 | h1
+  · rw [hr r h1] at h2; cases h2
+  · exact h1.elim
+  · exact h1
+
+
+/-- a hand-over is always of the offset the state file names -/
+theorem C15_deliver_is_st (s : State) (h : Inv s) (o : Nat) (hd : (step s .deliver).2 = some o) :
+    o = s.st ∧ (step s .deliver).1.st = s.st := by
+  rcases step_cases s h .deliver with ⟨hn, _⟩ | ⟨_, hob, hst, _⟩ | ⟨hx, _⟩
+  · rw [hn] at hd; cases hd
+  · rw [hob] at hd
+    simp only [Option.some.injEq] at hd
+    exact ⟨hd.symm, hst⟩
+  · cases hx
+
+/-- only `commit` moves the state file, and by exactly one, past the offset just handed over -/
+theorem C15_st_moves (s : State) (h : Inv s) (x : Step) :
+    (step s x).1.st = s.st ∨ (x = .commit ∧ (step s x).1.st = s.st + 1 ∧ ∃ r, s.run = some r ∧ r.pending = some s.st) := by
+  rcases step_cases s h x with ⟨_, hst, _⟩ | ⟨_, _, hst, _⟩ | ⟨hx, _, hst, hr, _⟩
+  · exact Or.inl hst
+  · exact Or.inl hst
+  · exact Or.inr ⟨hx, hst, hr⟩
 
 /-- truncation never removes a message that has not been handed over -/
 theorem C15_trunc_safe (steps : List Step) :
-    (exec {} steps).1.log.base ≤ (exec {} steps).1.st := by
-  sorry
+    (exec {} steps).1.log.base ≤ (exec {} steps).1.st := (C15_inv steps).baseLeSt
 
 /-- … and keeps at least `truncKeep` handed-over messages on disk behind the consumer -/
 theorem C15_trunc_margin (steps : List Step) :
-    (exec {} steps).1.log.base = 0 ∨ (exec {} steps).1.log.base + truncKeep ≤ (exec {} steps).1.st := by
-  sorry
+    (exec {} steps).1.log.base = 0 ∨ (exec {} steps).1.log.base + truncKeep ≤ (exec {} steps).1.st :=
+  (C15_inv steps).margin
 
 /-- the writer holds at most `writerQueueCap` scheduled offsets plus the one in hand; all of them
     are among the last `truncKeep` handed over -/
 theorem C02_writer_queue_margin : Facts.writerQueueCap + 1 < Facts.truncKeep := by
-  sorry
+  decide
 
 /-- maybeTruncate acts only on whole segments and only beyond the first `truncAfter` messages -/
 theorem C15_truncate_shape (l : Log) (cur : Nat) :
     (maybeTruncate l cur).next = l.next ∧ l.base ≤ (maybeTruncate l cur).base ∧
-    ((maybeTruncate l cur).base = l.base ∨ (maybeTruncate l cur).base + truncKeep ≤ cur) := by
-  sorry
+    ((maybeTruncate l cur).base = l.base ∨ (maybeTruncate l cur).base + truncKeep ≤ cur) :=
+  ⟨maybeTruncate_next l cur, maybeTruncate_base_ge l cur, maybeTruncate_base l cur⟩
+
+/-- a running consumer between two records: nothing pending, truncation done -/
+def Ready (s : State) : Prop := Inv s ∧ s.run = some ⟨s.st, none, false⟩
+
+def triple : List Step := [.deliver, .commit, .truncate]
+
+theorem triple_en (s : State) (h : Ready s) (hlt : s.st < s.log.next) :
+    exec s triple =
+      ({ log := maybeTruncate s.log (s.st + 1), st := s.st + 1, run := some ⟨s.st + 1, none, false⟩ },
+        [some s.st, none, none]) := by
+  obtain ⟨hi, hr⟩ := h
+  have e1 := step_deliver_en (s := s) hr rfl rfl hlt hi.baseLeSt
+  have e2 := step_commit_en (s := { s with run := some ⟨s.st, some s.st, false⟩ }) (o := s.st) rfl rfl
+  have e3 := step_truncate_en
+    (s := { s with st := s.st + 1, run := some ⟨s.st + 1, none, true⟩ }) rfl rfl
+  simp only [triple, exec_cons, exec_nil, e1, e2, e3]
+
+theorem triple_dis (s : State) (h : Ready s) (hlt : ¬ s.st < s.log.next) :
+    exec s triple = (s, [none, none, none]) := by
+  obtain ⟨hi, hr⟩ := h
+  have e1 := step_deliver_dis (s := s) hr (fun hc => hlt hc.2.2.1)
+  have e2 := step_commit_dis (s := s) hr rfl
+  have e3 := step_truncate_dis (s := s) hr rfl
+  simp only [triple, exec_cons, exec_nil, e1, e2, e3]
+
+theorem loop (j : Nat) : ∀ s, Ready s →
+    Ready (exec s (List.replicate j triple).flatten).1 ∧
+    (exec s (List.replicate j triple).flatten).1.st = s.st + min j (s.log.next - s.st) ∧
+    (exec s (List.replicate j triple).flatten).1.log.next = s.log.next ∧
+    (exec s (List.replicate j triple).flatten).2.filterMap id =
+      List.range' s.st (min j (s.log.next - s.st)) := by
+  induction j with
+  | zero =>
+    intro s h
+    simp [exec_nil, h]
+  | succ j ih =>
+    intro s h
+    rw [List.replicate_succ, List.flatten_cons, exec_append]
+    by_cases hlt : s.st < s.log.next
+    · have hi := C15_inv_from s h.1 triple
+      rw [triple_en s h hlt] at hi ⊢
+      obtain ⟨a, b, c, d⟩ := ih _ ⟨hi, rfl⟩
+      simp only [maybeTruncate_next] at b c d
+      refine ⟨a, ?_, c, ?_⟩
+      · rw [b]; omega
+      · have hm : min (j + 1) (s.log.next - s.st) = min j (s.log.next - (s.st + 1)) + 1 := by omega
+        rw [hm, List.range'_succ]
+        simp [d]
+    · rw [triple_dis s h hlt]
+      obtain ⟨a, b, c, d⟩ := ih _ h
+      have h0 : s.log.next - s.st = 0 := by omega
+      rw [h0] at b d ⊢
+      simp only [Nat.min_zero] at b d ⊢
+      exact ⟨a, b, c, by simpa using d⟩
+
+
+/-- the last (possibly interrupted) hand-over of an incarnation followed by the crash -/
+theorem tail_crash (s : State) (h : Ready s) (k : Nat) (inCb : Bool) :
+    let T : List Step := if k = 0 then [] else if inCb then [.deliver] else triple
+    let e := if s.st < s.log.next ∧ k ≠ 0 then 1 else 0
+    (exec s (T ++ [.crash])).1.run = none ∧
+    (exec s (T ++ [.crash])).1.st = s.st + (if inCb then 0 else e) ∧
+    (exec s (T ++ [.crash])).2.filterMap id = List.range' s.st e := by
+  intro T e
+  by_cases hk : k = 0
+  · simp [T, e, hk, exec_cons, exec_nil, step_crash]
+  · simp only [T, e, hk, if_false]
+    rw [exec_append]
+    simp only [exec_cons, exec_nil, step_crash]
+    by_cases hlt : s.st < s.log.next
+    · cases inCb with
+      | true =>
+        have e1 := step_deliver_en (s := s) h.2 rfl rfl hlt h.1.baseLeSt
+        simp [exec_cons, exec_nil, e1, hlt, hk]
+      | false =>
+        simp [triple_en s h hlt, hlt, hk]
+    · cases inCb with
+      | true =>
+        have e1 := step_deliver_dis (s := s) h.2 (fun hc => hlt hc.2.2.1)
+        simp [exec_cons, exec_nil, e1, hlt, hk]
+      | false =>
+        simp [triple_dis s h hlt, hlt, hk]
 
 /-- one incarnation from a stopped consumer hands over the next `min k (next - st)` offsets,
     consecutively from `st`, and commits all of them (clean) or all but the last (killed inside the
@@ -95,7 +498,40 @@ theorem C15_progress (s : State) (h : Inv s) (hr : s.run = none) (k : Nat) (inCb
     (incarnation s k inCb).2 = (List.range n).map (· + s.st) ∧
     (incarnation s k inCb).1.st = (if inCb ∧ n = k ∧ 0 < k then s.st + n - 1 else s.st + n) ∧
     (incarnation s k inCb).1.run = none := by
-  sorry
+  intro n
+  have hn : n = min k (s.log.next - s.st) := rfl
+  have hsteps : incarnationSteps k inCb =
+      [.start] ++ ((List.replicate (k - 1) triple).flatten ++
+        ((if k = 0 then [] else if inCb then [.deliver] else triple) ++ [.crash])) := by
+    simp only [incarnationSteps, triple, List.append_assoc]
+  have hs1 : Ready (step s .start).1 := by
+    refine ⟨C15_inv_step s h .start, ?_⟩
+    rw [step_start_none hr]
+  have hst1 : (step s .start).1.st = s.st := by rw [step_start_none hr]
+  have hn1 : (step s .start).1.log.next = s.log.next := by
+    rw [step_start_none hr]; exact maybeTruncate_next _ _
+  have ho1 : (step s .start).2 = none := by rw [step_start_none hr]
+  obtain ⟨a, b, c, d⟩ := loop (k - 1) _ hs1
+  obtain ⟨ta, tb, tc⟩ := tail_crash _ a k inCb
+  rw [hst1, hn1] at b d
+  rw [b, c, hn1] at tb tc
+  simp only [incarnation, hsteps]
+  rw [List.singleton_append, exec_cons, exec_append]
+  simp only [ho1, List.filterMap_cons, id, List.filterMap_append]
+  rw [d, tc, ta, tb]
+  have hrange : ∀ a m, List.range' a m = (List.range m).map (· + a) := by
+    intro a m
+    rw [List.range'_eq_map_range]
+    exact List.map_congr_left (fun x _ => Nat.add_comm _ _)
+  refine ⟨?_, ?_, rfl⟩
+  · rw [← hrange]
+    have := List.range'_append_1 (s := s.st) (m := min (k - 1) (s.log.next - s.st))
+      (n := if s.st + min (k - 1) (s.log.next - s.st) < s.log.next ∧ k ≠ 0 then 1 else 0)
+    rw [this]
+    congr 1
+    split <;> omega
+  · cases inCb <;> simp only [Bool.false_eq_true, false_and, if_false, true_and, if_true] <;>
+      (repeat' split) <;> omega
 
 /-- non-vacuity: a crash inside a callback, a restart, truncation after 2000 messages -/
 example :
